@@ -89,6 +89,15 @@ func (s *statsManager) sessionTerminated(clientID string, reason SessionTerminat
 	atomic.AddUint64(&s.totalStats.ConnectionStats.InactiveCurrent, ^uint64(0))
 	s.clientMu.Lock()
 	defer s.clientMu.Unlock()
+	// the messages still queued or in flight for the session are discarded with it
+	if sts := s.clientStats[clientID]; sts != nil {
+		if n := atomic.LoadUint64(&sts.MessageStats.QueuedCurrent); n != 0 {
+			atomic.AddUint64(&s.totalStats.MessageStats.QueuedCurrent, ^uint64(n-1))
+		}
+		if n := atomic.LoadUint64(&sts.MessageStats.InflightCurrent); n != 0 {
+			atomic.AddUint64(&s.totalStats.MessageStats.InflightCurrent, ^uint64(n-1))
+		}
+	}
 	delete(s.clientStats, clientID)
 }
 
